@@ -19,6 +19,8 @@ def _const_like(e):
     """values whose loss is no loss: constants, empty displays, None"""
     if isinstance(e, ast.Constant):
         return True
+    if isinstance(e, ast.Name):
+        return True      # another name for a value that already has one (`prev = current`): nothing was computed, nothing can be lost
     if isinstance(e, (ast.List, ast.Tuple, ast.Set, ast.Dict)) and not ast.dump(e).count("Name("):
         return not any(isinstance(x, (ast.Call, ast.Attribute, ast.Name)) for x in ast.walk(e))
     return False
